@@ -675,14 +675,14 @@ func (i *interpreter) wgWait(wg *value) {
 // ---------------------------------------------------------------- context model
 
 type ctxModel struct {
-	id       int
-	parent   *ctxModel
-	children []*ctxModel
-	done     *channel
-	err      value // iface error or nil
-	values   map[value]value
+	id        int
+	parent    *ctxModel
+	children  []*ctxModel
+	done      *channel
+	err       value // iface error or nil
+	values    map[value]value
 	canCancel bool
-	cell     *value
+	cell      *value
 }
 
 func (i *interpreter) newCtx(parent *ctxModel, cancellable bool) *ctxModel {
